@@ -353,7 +353,7 @@ func init() {
 		Assumptions: []string{"Go lexical grammar for string, rune, raw string and comment delimiters"},
 		Rules:       []func(*Ctx){ruleMultilineReader, func(c *Ctx) { c.Floor("R6-transitions", 12); c.Floor("R5-modes", 12); c.Floor("R1-exit-condition", 2) }},
 		Mutants: []Mutant{
-			{Name: "char-after-division-skipped", File: "base/read.go", Old: "\t\t\t\t\t\tfoundtoken(i - 1)\n\t\t\t\t\t\t// the character after a division operator is an ordinary one:\n\t\t\t\t\t\t// it may open a parenthesis or a string, examine it again\n\t\t\t\t\t\tgoto again\n", New: "\t\t\t\t\t\tfoundtoken(i - 1)\n", Canary: true},
+			{Name: "char-after-division-skipped", File: "base/read.go", Old: "\t\t\t\t\t\tgoto again\n", New: "\t\t\t\t\t\tif ch == 0 {\n\t\t\t\t\t\t\tgoto again\n\t\t\t\t\t\t}\n", Canary: true},
 			{Name: "exit-ignores-mode", File: "base/read.go", Old: "if paren <= 0 && !ignorenl && m == mNormal && (firstToken >= 0 || !optAllComments) {", New: "if paren <= 0 && !ignorenl && (firstToken >= 0 || !optAllComments) {", Canary: true},
 			{Name: "rawstring-closed-by-doublequote", File: "base/read.go", Old: "\t\t\t\tcase '`':\n\t\t\t\t\tm = mNormal\n", New: "\t\t\t\tcase '`', '\"':\n\t\t\t\t\tm = mNormal\n", Canary: true},
 			{Name: "line-appended-after-exit-check", File: "base/read.go", Old: "\t\tbuf = append(buf, line...)\n\t\tif m == mLineComment {\n\t\t\tm = mNormal\n\t\t}\n\t\tif err != nil {\n\t\t\tbreak\n\t\t}\n", New: "\t\tif m == mLineComment {\n\t\t\tm = mNormal\n\t\t}\n\t\tif err != nil {\n\t\t\tbreak\n\t\t}\n\t\tbuf = append(buf, line...)\n"},
